@@ -93,7 +93,9 @@ def build_spec(task, G, mult_max=None):
         k = task["k_resolved"]
     allow_empty = task["allow_empty"] or bool(sup)
     if task["cyc"]:
-        fmax = max([f for (_u, _v, f) in task["edges"] if f is not None] + [1]) if not task["node_mode"] else max(list((task.get("node_flow") or {}).values()) + [1])
+        fmax = max([e[2] for e in task["edges"] if len(e) > 2 and e[2] is not None] + [1]) if not task["node_mode"] else max(list((task.get("node_flow") or {}).values()) + [1])
+        if task["kind"] == "cover":
+            fmax = max(fmax, G.number_of_nodes())
         mm = mult_max or (int(fmax) + 1)
         sp = spec.WalkEuler(G, k, wtype=wt, starts=task["starts"], ends=task["ends"], allow_empty=allow_empty, mult_max=mm)
     else:
@@ -104,6 +106,14 @@ def build_spec(task, G, mult_max=None):
         cons.append(z3.Sum([z3.If(sp.nonempty(i), 1, 0) for i in range(k)]) <= kw["k"])
     sc = _scaling(task)
     dem = [(e, f) for (e, f) in spec.demands_of(G, "flow", task["node_mode"], task["ignored"]) if sc.get(e, 1) != 0]
+    if task.get("constraints"):
+        cons += constraint_spec(task, G, sp)
+    if task["kind"] == "feas":
+        return sp, cons, z3.IntVal(0)
+    if task["kind"] == "fd":
+        return sp, cons + spec.flow_decomposition(sp, dem), z3.IntVal(0)
+    if task["kind"] == "cover":
+        return sp, cons + cons_cover_elems(task, G, sp), z3.IntVal(0)
     if task["kind"] == "lae":
         c2, obj = spec.abs_error_objective(sp, dem, sc)
         cons += c2
@@ -138,6 +148,22 @@ def build_spec(task, G, mult_max=None):
                 cons.append(z3.Or([sp.c[i] == r for r in ok_r] + ([sp.c[i] == sp.R] if allow_empty else [])))
         obj = z3.Sum(sl) if sl else z3.IntVal(0)
     return sp, cons, obj
+
+
+def constraint_spec(task, G, sp):
+    cov = task.get("coverage", 1.0)
+    if task["cyc"]:
+        return spec.subset_constraints_satisfied(sp, task["constraints"], cov)
+    if task.get("cov_len") is not None:
+        lengths = {(u, v): (e[3] if len(e) > 3 and e[3] is not None else 1) for e in task["edges"] for (u, v) in [(e[0], e[1])]}
+        return spec.constraints_satisfied(sp, task["constraints"], task["cov_len"], lengths)
+    return spec.constraints_satisfied(sp, task["constraints"], cov)
+
+
+def cons_cover_elems(task, G, sp):
+    ign = {tuple(x) if not isinstance(x, str) else x for x in task["ignored"]}
+    els = [v for v in G.nodes() if v not in ign] if task["node_mode"] else [e for e in G.edges() if e not in ign]
+    return spec.cover(sp, els)
 
 
 # --------------------------------------------------------------------------- real model helpers
@@ -341,8 +367,7 @@ def _cap_diag(task, m, lp, sp, mdl):
                 ie = layers.internal_edge(e, task["node_mode"])
                 ub = lp.ub[cols[(ie[0], ie[1], 0)]]
                 if ub is not None and c > ub:
-                    ign = tuple(ie) in m.edges_to_ignore
-                    return ":needs-traversals-above-repetition-cap[" + str(task["kwargs"].get("weight_type", "float")) + "-weights" + (",on-ignored-element" if ign else "") + (",with-error-scaling" if task["scaling"] else "") + "]"
+                    return ":needs-traversals-above-repetition-cap"
     except Exception:
         pass
     return ""
